@@ -224,8 +224,18 @@ Qed.
 Definition offered_units (k : kind) (bufs : list bytes) : list wunit :=
   match sess_units k bufs with Some us => us | None => [] end.
 
+(* units of an inbound event: the reply a session of kind k would write (for
+   whichever consumer the event is aimed at: an over-approximation that keeps
+   [offered] independent of the consumer's index) *)
+Definition in_units (k : kind) (x : inbound) : list wunit :=
+  match in_reply k x with Some u => [u] | None => [] end.
+
 Definition ev_units (k : kind) (ev : event) : list wunit :=
-  match ev with EvPub _ bufs => offered_units k bufs | _ => [] end.
+  match ev with
+  | EvPub _ bufs => offered_units k bufs
+  | EvIn _ _ x => in_units k x
+  | _ => []
+  end.
 
 (* every unit the session of kind k hands to its connection during evs *)
 Definition offered (k : kind) (evs : list event) : list wunit := flat_map (ev_units k) evs.
@@ -251,11 +261,23 @@ Proof.
   destruct (enq_all eager l (s_conn s)). split; reflexivity.
 Qed.
 
+Lemma in_local_kind size x s :
+  s_kind (in_local size x s) = s_kind s /\ s_id (in_local size x s) = s_id s /\
+  s_stale (in_local size x s) = s_stale s /\ s_acc (in_local size x s) = s_acc s.
+Proof.
+  unfold in_local. destruct (c_closed (s_conn s) || negb (in_ok (s_kind s) x)); [repeat split|].
+  destruct (in_reply (s_kind s) x) as [u|].
+  - cbn [add_crd s_conn]. destruct (enqueue u (s_conn s)) as [c1 w]. repeat split.
+  - destruct (in_ends (s_kind s)); repeat split.
+Qed.
+
 Lemma srun1_kind ev s : s_kind (srun1 ev s) = s_kind s /\ s_id (srun1 ev s) = s_id s.
 Proof.
   unfold srun1. destruct ev; cbn [local fst]; try apply sess_write_kind;
     unfold on_conn; try (destruct (Nat.eqb (s_id s) i); split; reflexivity).
-  unfold sweep_one. destruct (s_stale s); split; reflexivity.
+  - unfold sweep_one. destruct (s_stale s); split; reflexivity.
+  - destruct (Nat.eqb (s_id s) i); [|split; reflexivity].
+    destruct (in_local_kind size x s) as [H1 [H2 _]]. split; assumption.
 Qed.
 
 Lemma srun_kind evs : forall s, s_kind (srun evs s) = s_kind s /\ s_id (srun evs s) = s_id s.
@@ -283,10 +305,23 @@ Proof.
   intros Hf HI. unfold on_conn. destruct (Nat.eqb (s_id s) i); [cbn; apply Hf|]; assumption.
 Qed.
 
+Lemma Inv_in_local size x s offered :
+  Inv offered (s_conn s) -> Inv (offered ++ in_units (s_kind s) x) (s_conn (in_local size x s)).
+Proof.
+  intros HI. unfold in_local, in_units.
+  destruct (c_closed (s_conn s) || negb (in_ok (s_kind s) x)); [apply Inv_weaken; assumption|].
+  destruct (in_reply (s_kind s) x) as [u|].
+  - cbn [add_crd s_conn]. pose proof (Inv_enqueue offered u (s_conn s) HI) as H.
+    destruct (enqueue u (s_conn s)) as [c1 w]. cbn [fst s_conn] in *.
+    destruct w; [assumption|apply Inv_wclose; assumption|apply Inv_wclose; assumption].
+  - rewrite app_nil_r. destruct (in_ends (s_kind s)); [cbn; apply Inv_wclose|]; assumption.
+Qed.
+
 Lemma Inv_srun1 ev s offered :
   Inv offered (s_conn s) -> Inv (offered ++ ev_units (s_kind s) ev) (s_conn (srun1 ev s)).
 Proof.
-  intros HI. unfold srun1. destruct ev; cbn [local fst ev_units]; try rewrite app_nil_r.
+  intros HI. unfold srun1. destruct ev; cbn [local fst ev_units]; try rewrite app_nil_r;
+    try (destruct (Nat.eqb (s_id s) i); [apply Inv_in_local|apply Inv_weaken]; assumption).
   - apply Inv_sess_write. assumption.
   - apply Inv_on_conn; [apply Inv_take|assumption].
   - apply Inv_on_conn; [apply Inv_wdone|assumption].
@@ -496,22 +531,28 @@ Proof. unfold ubytes. cbn. apply app_nil_r. Qed.
 Lemma offered_app k e1 e2 : offered k (e1 ++ e2) = offered k e1 ++ offered k e2.
 Proof. unfold offered. apply flat_map_app. Qed.
 
+(* kinds whose read loop never writes: the units are the published ones *)
+Lemma in_units_http k x : k = KFlv \/ k = KTs \/ k = KWsFlv \/ k = KWsTs -> in_units k x = [].
+Proof. intros [->|[->|[->| ->]]]; destruct x; reflexivity. Qed.
+
 Lemma offered_plain k evs :
-  k = KRtmp \/ k = KFlv \/ k = KTs -> offered k evs = map (fun b => [b]) (pub_payloads evs).
+  k = KFlv \/ k = KTs -> offered k evs = map (fun b => [b]) (pub_payloads evs).
 Proof.
   intros Hk. induction evs as [|ev r IH]; [reflexivity|].
   unfold offered, pub_payloads in *. cbn [flat_map]. rewrite IH. rewrite map_app. f_equal.
   destruct ev; try reflexivity.
-  destruct Hk as [-> | [-> | ->]]; reflexivity.
+  - destruct Hk as [-> | ->]; reflexivity.
+  - cbn [ev_units]. apply in_units_http. destruct Hk; auto.
 Qed.
 
 Lemma offered_bytes_plain k evs :
-  k = KRtmp \/ k = KRtmpV \/ k = KFlv \/ k = KTs -> map ubytes (offered k evs) = pub_payloads evs.
+  k = KFlv \/ k = KTs -> map ubytes (offered k evs) = pub_payloads evs.
 Proof.
   intros Hk. induction evs as [|ev r IH]; [reflexivity|].
   unfold offered, pub_payloads in *. cbn [flat_map]. rewrite map_app. rewrite IH. f_equal.
   destruct ev; try reflexivity.
-  destruct Hk as [->|[-> | [-> | ->]]]; cbn; unfold ubytes; cbn; try rewrite app_nil_r; reflexivity.
+  - destruct Hk as [-> | ->]; cbn; unfold ubytes; cbn; try rewrite app_nil_r; reflexivity.
+  - cbn [ev_units]. rewrite in_units_http by (destruct Hk; auto). reflexivity.
 Qed.
 
 Lemma offered_bytes_ws k evs :
@@ -520,15 +561,36 @@ Proof.
   intros Hk. induction evs as [|ev r IH]; [reflexivity|].
   unfold offered, pub_payloads in *. cbn [flat_map]. rewrite !map_app. rewrite IH. f_equal.
   destruct ev; try reflexivity.
-  destruct Hk as [-> | ->]; reflexivity.
+  - destruct Hk as [-> | ->]; reflexivity.
+  - cbn [ev_units]. rewrite in_units_http by (destruct Hk; auto). reflexivity.
 Qed.
 
+(* a unit is a published one or a reply of the read loop *)
 Lemma in_offered_inv k evs u :
-  In u (offered k evs) -> exists eager bufs, In (EvPub eager bufs) evs /\ In u (offered_units k bufs).
+  In u (offered k evs) ->
+  (exists eager bufs, In (EvPub eager bufs) evs /\ In u (offered_units k bufs)) \/
+  (exists i size x, In (EvIn i size x) evs /\ in_reply k x = Some u).
 Proof.
   unfold offered. intros H. apply in_flat_map in H. destruct H as [ev [Hev Hu]].
-  destruct ev; cbn in Hu; try contradiction. eauto.
+  destruct ev; cbn in Hu; try contradiction.
+  - left. eauto.
+  - right. unfold in_units in Hu. destruct (in_reply k x) as [u'|] eqn:E; [|contradiction].
+    destruct Hu as [<-|[]]. eauto.
 Qed.
+
+(* the player sends no request that is answered (rtsp: no OPTIONS) *)
+Definition no_replies (k : kind) (evs : list event) : Prop :=
+  forall i size x, In (EvIn i size x) evs -> in_reply k x = None.
+
+Lemma in_offered_pub k evs u : no_replies k evs ->
+  In u (offered k evs) -> exists eager bufs, In (EvPub eager bufs) evs /\ In u (offered_units k bufs).
+Proof.
+  intros Hn Hu. destruct (in_offered_inv k evs u Hu) as [H|[i [size [x [Hin Hr]]]]]; [exact H|].
+  rewrite (Hn i size x Hin) in Hr. discriminate.
+Qed.
+
+Lemma no_replies_http k evs : k = KFlv \/ k = KTs \/ k = KWsFlv \/ k = KWsTs -> no_replies k evs.
+Proof. intros Hk i size x _. destruct Hk as [->|[->|[->| ->]]]; destruct x; reflexivity. Qed.
 
 Lemma in_pub_payloads evs eager bufs : In (EvPub eager bufs) evs -> In (concat bufs) (pub_payloads evs).
 Proof.
@@ -580,6 +642,7 @@ Definition about (i : nat) (ev : event) : bool :=
   match ev with
   | EvTake j | EvDone j | EvClose j => Nat.eqb j i
   | EvFail j _ => Nat.eqb j i
+  | EvIn j _ _ => Nat.eqb j i           (* what consumer j sends is consumer j's own business too *)
   | _ => false
   end.
 
@@ -742,31 +805,6 @@ Proof.
   rewrite IH. destruct eager; [rewrite take_wrote|]; assumption.
 Qed.
 
-Lemma quiet_step ev s : is_rtp (s_kind s) = false -> quiet (s_id s) ev ->
-  sess_wrote (srun1 ev s) = sess_wrote s /\ s_stale (srun1 ev s) = s_stale s.
-Proof.
-  intros Hk Hq. unfold sess_wrote. destruct (srun1_kind ev s) as [Hk' _]. rewrite Hk', Hk.
-  unfold srun1. destruct ev; cbn [local fst]; cbn in Hq.
-  - unfold sess_write, sess_write_gen. destruct (sess_units (s_kind s) bufs) as [us|]; [|split; reflexivity].
-    pose proof (enq_all_wrote us eager (s_conn s)) as H. destruct (enq_all eager us (s_conn s)) as [c ws].
-    cbn [fst s_conn s_stale] in *. split; [assumption|reflexivity].
-  - unfold on_conn. destruct (Nat.eqb (s_id s) i); [|split; reflexivity]. cbn. split; [apply take_wrote|reflexivity].
-  - unfold on_conn. destruct (Nat.eqb (s_id s) i) eqn:E; [|split; reflexivity]. apply Nat.eqb_eq in E. congruence.
-  - unfold on_conn. destruct (Nat.eqb (s_id s) i) eqn:E; [|split; reflexivity]. apply Nat.eqb_eq in E. congruence.
-  - unfold on_conn. destruct (Nat.eqb (s_id s) i) eqn:E; [|split; reflexivity]. apply Nat.eqb_eq in E. congruence.
-  - contradiction.
-Qed.
-
-Lemma quiet_run evs : forall s, is_rtp (s_kind s) = false -> Forall (quiet (s_id s)) evs ->
-  sess_wrote (srun evs s) = sess_wrote s /\ s_stale (srun evs s) = s_stale s.
-Proof.
-  induction evs as [|ev r IH]; intros s Hk Hq; [split; reflexivity|].
-  inversion Hq as [|? ? Hq1 Hq2]; subst. cbn [srun].
-  destruct (quiet_step ev s Hk Hq1) as [H1 H2]. destruct (srun1_kind ev s) as [Hk' Hid'].
-  destruct (IH (srun1 ev s)) as [H3 H4]; [congruence|rewrite Hid'; assumption|].
-  split; congruence.
-Qed.
-
 (* closed is for ever *)
 Lemma closed_enqueue u c : c_closed c = true -> c_closed (fst (enqueue u c)) = true.
 Proof. intros H. unfold enqueue. rewrite H. exact H. Qed.
@@ -802,6 +840,7 @@ Proof.
   - unfold on_conn. destruct (Nat.eqb (s_id s) i); [cbn; apply wclose_closed|exact H].
   - unfold sweep_one. destruct (s_stale s); cbn; [|exact H].
     destruct (sess_wrote s =? n); [apply wclose_closed|exact H].
+  - destruct (Nat.eqb (s_id s) i); [|exact H]. unfold in_local. rewrite H. exact H.
 Qed.
 
 Lemma closed_srun evs : forall s, c_closed (s_conn s) = true -> c_closed (s_conn (srun evs s)) = true.
@@ -809,8 +848,55 @@ Proof.
   induction evs as [|ev r IH]; intros s H; [exact H|]. cbn [srun]. apply IH. apply closed_srun1. exact H.
 Qed.
 
+(* what the player SENDS never counts as write progress: the read loop either
+   leaves the write counter alone or ends with the connection closed *)
+Lemma in_local_wrote size x s :
+  c_closed (s_conn (in_local size x s)) = true \/ c_wrote (s_conn (in_local size x s)) = c_wrote (s_conn s).
+Proof.
+  unfold in_local. destruct (c_closed (s_conn s) || negb (in_ok (s_kind s) x)); [right; reflexivity|].
+  destruct (in_reply (s_kind s) x) as [u|].
+  - cbn [add_crd s_conn]. pose proof (enqueue_wrote u (s_conn s)) as H.
+    destruct (enqueue u (s_conn s)) as [c1 w]. cbn [fst s_conn] in *.
+    destruct w; [right; exact H|left; apply wclose_closed|left; apply wclose_closed].
+  - destruct (in_ends (s_kind s)); [left; cbn; apply wclose_closed|right; reflexivity].
+Qed.
+
+(* a quiet event: the consumer ends closed, or its counters are where they were *)
+Lemma quiet_step ev s : is_rtp (s_kind s) = false -> quiet (s_id s) ev ->
+  s_stale (srun1 ev s) = s_stale s /\
+  (c_closed (s_conn (srun1 ev s)) = true \/ sess_wrote (srun1 ev s) = sess_wrote s).
+Proof.
+  intros Hk Hq. unfold sess_wrote. destruct (srun1_kind ev s) as [Hk' _]. rewrite Hk', Hk.
+  unfold srun1. destruct ev; cbn [local fst]; cbn in Hq.
+  - unfold sess_write, sess_write_gen. destruct (sess_units (s_kind s) bufs) as [us|]; [|split; [|right]; reflexivity].
+    pose proof (enq_all_wrote us eager (s_conn s)) as H. destruct (enq_all eager us (s_conn s)) as [c ws].
+    cbn [fst s_conn s_stale] in *. split; [reflexivity|right; assumption].
+  - unfold on_conn. destruct (Nat.eqb (s_id s) i); [|split; [|right]; reflexivity]. cbn. split; [reflexivity|right; apply take_wrote].
+  - unfold on_conn. destruct (Nat.eqb (s_id s) i) eqn:E; [|split; [|right]; reflexivity]. apply Nat.eqb_eq in E. congruence.
+  - unfold on_conn. destruct (Nat.eqb (s_id s) i) eqn:E; [|split; [|right]; reflexivity]. apply Nat.eqb_eq in E. congruence.
+  - unfold on_conn. destruct (Nat.eqb (s_id s) i) eqn:E; [|split; [|right]; reflexivity]. apply Nat.eqb_eq in E. congruence.
+  - contradiction.
+  - destruct (Nat.eqb (s_id s) i); [|split; [|right]; reflexivity].
+    destruct (in_local_kind size x s) as [_ [_ [H3 _]]]. split; [exact H3|apply in_local_wrote].
+Qed.
+
+Lemma quiet_run evs : forall s, is_rtp (s_kind s) = false -> Forall (quiet (s_id s)) evs ->
+  s_stale (srun evs s) = s_stale s /\
+  (c_closed (s_conn (srun evs s)) = true \/ sess_wrote (srun evs s) = sess_wrote s).
+Proof.
+  induction evs as [|ev r IH]; intros s Hk Hq; [split; [|right]; reflexivity|].
+  inversion Hq as [|? ? Hq1 Hq2]; subst. cbn [srun].
+  destruct (quiet_step ev s Hk Hq1) as [H1 H2]. destruct (srun1_kind ev s) as [Hk' Hid'].
+  destruct (IH (srun1 ev s)) as [H3 H4]; [congruence|rewrite Hid'; assumption|].
+  split; [congruence|].
+  destruct H2 as [H2|H2]; [left; apply closed_srun; exact H2|].
+  destruct H4 as [H4|H4]; [left; exact H4|right; congruence].
+Qed.
+
 (* a consumer (byte-counter kinds) that completes no write between two sweeps
-   is disposed by the second one at the latest, whatever was published meanwhile *)
+   is disposed by the second one at the latest, whatever was published meanwhile
+   and whatever the consumer itself SENT meanwhile (acks, pings, WebSocket
+   frames: the sweep looks at the write counter only) *)
 Theorem sweep_stalled evs s :
   is_rtp (s_kind s) = false -> Forall (quiet (s_id s)) evs ->
   c_closed (s_conn (sweep_one (srun evs (sweep_one s)))) = true.
@@ -818,17 +904,18 @@ Proof.
   intros Hk Hq.
   assert (Hk1 : s_kind (sweep_one s) = s_kind s) by (unfold sweep_one; destruct (s_stale s); reflexivity).
   assert (Hid1 : s_id (sweep_one s) = s_id s) by (unfold sweep_one; destruct (s_stale s); reflexivity).
+  change (sweep_one (srun evs (sweep_one s))) with (srun1 EvSweep (srun evs (sweep_one s))).
   destruct (c_closed (s_conn (sweep_one s))) eqn:Hcl.
   - (* the first sweep already disposed it *)
-    change (sweep_one (srun evs (sweep_one s))) with (srun1 EvSweep (srun evs (sweep_one s))).
     apply closed_srun1. apply closed_srun. exact Hcl.
   - assert (Hc1 : s_conn (sweep_one s) = s_conn s).
     { unfold sweep_one in *. destruct (s_stale s) as [w0|]; cbn in *; [|reflexivity].
       destruct (sess_wrote s =? w0); [|reflexivity]. rewrite wclose_closed in Hcl. discriminate. }
-    destruct (quiet_run evs (sweep_one s)) as [H1 H2]; [congruence|rewrite Hid1; assumption|].
-    eapply sweep_dispose.
-    + rewrite H2. apply sweep_stale.
-    + rewrite H1. unfold sess_wrote. rewrite Hk1, Hc1, Hk. reflexivity.
+    destruct (quiet_run evs (sweep_one s)) as [H2 [H1|H1]]; [congruence|rewrite Hid1; assumption| |].
+    + apply closed_srun1. exact H1.
+    + eapply sweep_dispose.
+      * rewrite H2. apply sweep_stale.
+      * rewrite H1. unfold sess_wrote. rewrite Hk1, Hc1, Hk. reflexivity.
 Qed.
 
 (* progress keeps a consumer: the byte counter never decreases, grows with
@@ -854,6 +941,16 @@ Proof. unfold wclose. destruct (c_hand c) as [[u k]|]; cbn; lia. Qed.
 
 Definition not_sweep (ev : event) : Prop := match ev with EvSweep => False | _ => True end.
 
+Lemma in_local_wrote_mono size x s : c_wrote (s_conn s) <= c_wrote (s_conn (in_local size x s)).
+Proof.
+  unfold in_local. destruct (c_closed (s_conn s) || negb (in_ok (s_kind s) x)); [lia|].
+  destruct (in_reply (s_kind s) x) as [u|].
+  - cbn [add_crd s_conn]. pose proof (enqueue_wrote u (s_conn s)) as H.
+    destruct (enqueue u (s_conn s)) as [c1 w]. cbn [fst s_conn] in *.
+    destruct w; [lia|pose proof (wclose_wrote c1); lia|pose proof (wclose_wrote c1); lia].
+  - destruct (in_ends (s_kind s)); cbn; [pose proof (wclose_wrote (s_conn s))|]; lia.
+Qed.
+
 Lemma step_wrote_mono ev s : not_sweep ev ->
   c_wrote (s_conn s) <= c_wrote (s_conn (srun1 ev s)) /\ s_stale (srun1 ev s) = s_stale s.
 Proof.
@@ -873,6 +970,8 @@ Proof.
   - unfold on_conn. destruct (Nat.eqb (s_id s) i).
     + cbn. split; [apply wclose_wrote|reflexivity].
     + split; [lia|reflexivity].
+  - destruct (Nat.eqb (s_id s) i); [|split; [lia|reflexivity]].
+    destruct (in_local_kind size x s) as [_ [_ [H3 _]]]. split; [apply in_local_wrote_mono|exact H3].
 Qed.
 
 Lemma run_wrote_mono evs : forall s, Forall not_sweep evs ->
@@ -956,7 +1055,7 @@ Proof. vm_compute. repeat split. Qed.
 Lemma block_would_wait :
   exists bufs st, fanout_b BehBlock bufs st = None /\ fanout_b BehError bufs st <> None.
 Proof.
-  exists [[9]], [mk_sess 0 KFlv (mk_conn 1 [[[7]]] (Some ([[8]], O)) false [] 0) None 0 [] 0].
+  exists [[9]], [mk_sess 0 KFlv (mk_conn 1 [[[7]]] (Some ([[8]], O)) false [] 0) None 0 [] 0 0 0].
   split; [reflexivity|discriminate].
 Qed.
 
@@ -969,7 +1068,7 @@ Definition tail_ok (k : kind) (evs : list event) (s : sess) (tail : bytes) : Pro
   (c_hand (s_conn s) = None -> c_closed (s_conn s) = false -> tail = []).
 
 Lemma in_offered_plain k evs u :
-  k = KRtmp \/ k = KFlv \/ k = KTs -> In u (offered k evs) -> exists b, In b (pub_payloads evs) /\ u = [b].
+  k = KFlv \/ k = KTs -> In u (offered k evs) -> exists b, In b (pub_payloads evs) /\ u = [b].
 Proof.
   intros Hk Hu. rewrite (offered_plain k evs Hk) in Hu. apply in_map_iff in Hu.
   destruct Hu as [b [<- Hb]]. eauto.
@@ -1007,6 +1106,7 @@ Lemma rtp_track_chan su b t : rtp_track b = Some t -> su_tcp su t = true ->
 Proof. intros _ Hs. destruct t; cbn in *; auto. Qed.
 
 Theorem rtp_stream evs id su cap :
+  no_replies (KRtp su) evs ->
   (forall b, In b (pub_payloads evs) -> lenN b < 65536) ->
   let s := srun evs (sess_new id (KRtp su) cap) in
   exists pkts tail,
@@ -1015,14 +1115,14 @@ Theorem rtp_stream evs id su cap :
     parses rtp_parse1 (concat (map (fun x => pack_interleaved (fst x) (snd x)) pkts)) pkts /\
     tail_ok (KRtp su) evs s tail.
 Proof.
-  intros Hpay s.
+  intros Hnr Hpay s.
   destruct (framed_single rtp_parse1 (fun x => pack_interleaved (fst x) (snd x))
               (rtp_on_wire su evs) evs id (KRtp su) cap)
     as [xs [tail H]].
   - intros [ch raw] r [Hch Hin]. cbn [fst snd] in *. split.
     + unfold pack_interleaved. cbn. discriminate.
     + apply rtp_parse1_pack; [destruct Hch as [[-> _]|[-> _]]; lia|apply Hpay; assumption].
-  - intros u Hu. apply in_offered_inv in Hu. destruct Hu as [eager [bufs [Hev Hu]]].
+  - intros u Hu. apply (in_offered_pub _ _ _ Hnr) in Hu. destruct Hu as [eager [bufs [Hev Hu]]].
     unfold offered_units in Hu. cbn [sess_units] in Hu.
     destruct (rtp_track (concat bufs)) as [t|] eqn:Hr; [|contradiction].
     destruct (su_tcp su t) eqn:Hs; [|contradiction].
@@ -1059,7 +1159,9 @@ Lemma ws_units_flv_ts k evs :
   (forall b, In b (pub_payloads evs) -> lenN b < 9223372036854775808) ->
   forall u, In u (offered k evs) -> exists p, lenN p < 9223372036854775808 /\ ubytes u = ws_write p.
 Proof.
-  intros Hk Hpay u Hu. apply in_offered_inv in Hu. destruct Hu as [eager [bufs [Hev Hu]]].
+  intros Hk Hpay u Hu.
+  apply (in_offered_pub k evs u) in Hu; [|apply no_replies_http; destruct Hk; auto].
+  destruct Hu as [eager [bufs [Hev Hu]]].
   exists (concat bufs). split; [apply Hpay; eapply in_pub_payloads; eassumption|].
   unfold offered_units in Hu. destruct Hk as [-> | ->]; cbn in Hu; destruct Hu as [<-|[]]; reflexivity.
 Qed.
@@ -1067,11 +1169,17 @@ Qed.
 Lemma pack_interleaved_len ch b : lenN (pack_interleaved ch b) = 4 + lenN b.
 Proof. unfold pack_interleaved, lenN. rewrite !app_length, be_put_length. cbn [length]. lia. Qed.
 
+(* rtsp over WebSocket: media packets AND the replies to OPTIONS keep-alives are
+   complete frames (F-35: the replies were a header write and a body write) *)
 Lemma ws_units_rtp su evs :
   (forall b, In b (pub_payloads evs) -> lenN b < 65536) ->
+  (forall i size resp, In (EvIn i size (InOptions resp)) evs -> lenN resp < 9223372036854775808) ->
   forall u, In u (offered (KWsRtp su) evs) -> exists p, lenN p < 9223372036854775808 /\ ubytes u = ws_write p.
 Proof.
-  intros Hpay u Hu. apply in_offered_inv in Hu. destruct Hu as [eager [bufs [Hev Hu]]].
+  intros Hpay Hresp u Hu. apply in_offered_inv in Hu.
+  destruct Hu as [[eager [bufs [Hev Hu]]]|[i [size [x [Hin Hr]]]]].
+  2:{ destruct x; cbn [in_reply] in Hr; try discriminate. inversion Hr; subst.
+      exists resp. split; [eapply Hresp; eassumption|]. unfold ubytes. cbn [concat]. apply app_nil_r. }
   unfold offered_units in Hu. cbn [sess_units] in Hu.
   destruct (rtp_track (concat bufs)) as [t|]; [|contradiction].
   destruct (su_tcp su t); [|contradiction].
@@ -1101,22 +1209,34 @@ Qed.
 (* RTMP (Write and Writev): for ANY message-stream reader p1 that reads every
    published unit as a self-contained piece (lal's chunks of whole messages
    start with a type-0 header, C08), the received stream is read completely *)
+(* rtmp: a unit is a published one or a ping response of the read loop *)
+Lemma in_offered_rtmp k evs u : k = KRtmp \/ k = KRtmpV -> In u (offered k evs) ->
+  (exists b, In b (pub_payloads evs) /\ ubytes u = b) \/ (exists ts, ubytes u = rtmp_pong ts).
+Proof.
+  intros Hk Hu. apply in_offered_inv in Hu.
+  destruct Hu as [[eager [bufs [Hev Hu]]]|[i [size [x [Hin Hr]]]]].
+  - left. exists (concat bufs). split; [eapply in_pub_payloads; eassumption|].
+    unfold offered_units in Hu. destruct Hk as [-> | ->]; cbn in Hu; destruct Hu as [<-|[]];
+      unfold ubytes; cbn; try rewrite app_nil_r; reflexivity.
+  - right. destruct Hk as [-> | ->]; destruct x; cbn in Hr; try discriminate; inversion Hr; subst;
+      exists ts; unfold ubytes; cbn [concat]; apply app_nil_r.
+Qed.
+
 Theorem rtmp_stream {F} (p1 : bytes -> option (F * bytes)) evs id k cap :
   k = KRtmp \/ k = KRtmpV ->
   (forall b, In b (pub_payloads evs) -> exists fs, unit_law p1 b fs) ->
+  (forall ts, exists fs, unit_law p1 (rtmp_pong ts) fs) ->
   let s := srun evs (sess_new id k cap) in
   exists whole tail frames,
     c_wire (s_conn s) = concat whole ++ tail /\
-    subseq whole (pub_payloads evs) /\
+    subseq whole (map ubytes (offered k evs)) /\
     parses p1 (concat whole) frames /\
     tail_ok k evs s tail.
 Proof.
-  intros Hk Hpay s.
-  assert (Hb : map ubytes (offered k evs) = pub_payloads evs).
-  { apply offered_bytes_plain. destruct Hk; auto. }
+  intros Hk Hpay Hpong s.
   destruct (framed_stream_ex p1 evs id k cap) as [del [tail [frames H]]].
-  - intros u Hu. apply Hpay. rewrite <- Hb. apply in_map. assumption.
+  - intros u Hu. destruct (in_offered_rtmp k evs u Hk Hu) as [[b [Hb ->]]|[ts ->]]; [apply Hpay; exact Hb|apply Hpong].
   - destruct H as [Hw [Hs [Hp [Ht Hq]]]].
     exists (map ubytes del), tail, frames. repeat split; try assumption.
-    rewrite <- Hb. apply subseq_map. assumption.
+    apply subseq_map. assumption.
 Qed.
